@@ -21,7 +21,7 @@ Definition open_ok (W : world) (IdOK : ectx -> eid -> Prop) (E : ectx)
   IdOK E id /\ r = ec_root E /\ c = ec_name E /\ w_check W = false /\
   exists pv iv,
     alookup p (w_provs W) = Some pv
-    /\ export big_fuel iv = Some xin
+    /\ export_t iv = Some xin
     /\ contains_unknowns iv = false
     /\ x_has_unknown xin = false
     /\ fst (validate (AccIn (pv_in pv)) iv) = true
@@ -107,9 +107,9 @@ Proof.
   - apply pres_ret.
   - change (preserves (R E g)
       (pv <- eval_access W f E p ;;
-       let '(s, u, sc) := to_string big_fuel pv in
+       let '(s, u, sc) := to_string (ts_need pv) pv in
        interp_loop W f E r (if u then acc +++ text else acc +++ text +++ s) (unk || u) (sec || sc))).
-    apply pres_bind; [apply Ha|]. intros pv. destruct (to_string big_fuel pv) as [[s u] sc]. apply IH.
+    apply pres_bind; [apply Ha|]. intros pv. destruct (to_string (ts_need pv) pv) as [[s u] sc]. apply IH.
   - change (preserves (R E g) (interp_loop W f E r (acc +++ text) unk sec)). apply IH.
 Qed.
 
@@ -154,7 +154,7 @@ Lemma open_site_ok E id pname p iv (failed : bool) sx ux m :
   typed_post (AccIn (pv_in p)) (iv, true) ->
   contains_unknowns iv = false ->
   w_check W = false ->
-  export big_fuel iv = Some (XObj sx ux m) ->
+  export_t iv = Some (XObj sx ux m) ->
   ev_ok W IdOK E (EvOpen id pname (XObj sx ux m) (ec_root E) (ec_name E)).
 Proof.
   intros Hid Hprov Hpost Hunk Hchk Hx. unfold ev_ok, open_ok.
@@ -201,7 +201,7 @@ Proof.
   apply orb_false_iff in Hgate. destruct Hgate as [Hgate Hchk].
   apply orb_false_iff in Hgate. destruct Hgate as [Hok Hunk].
   apply negb_false_iff in Hok. subst ok.
-  destruct (export big_fuel iv) as [[sx ux sc|sx ux l|sx ux m]|] eqn:Hx;
+  destruct (export_t iv) as [[sx ux sc|sx ux l|sx ux m]|] eqn:Hx;
     [apply Lerr|apply Lerr| |apply Loof].
   apply hoare_call_emit with (P' := T E id s).
   - intros s1 Hs1. apply T_open; [exact Hpre|exact Hs1|]. eapply open_site_ok; eassumption.
@@ -282,7 +282,7 @@ Proof.
       destruct (json_parse s0); [pleaf|oof_case|oof_case].
     + (* EToString *)
       apply pres_bind; [apply IHe', IdOK_ext, Hid|]. intros v.
-      destruct (to_string big_fuel v) as [[s0 unk] sec]. destruct unk; pleaf.
+      destruct (to_string (ts_need v) v) as [[s0 unk] sec]. destruct unk; pleaf.
     + (* EToB64 *)
       apply pres_bind_post with (phi := typed_post AccString); [apply IHt', IdOK_ext, Hid|]. intros [v ok] _.
       destruct (negb ok); [pleaf|]. cbv zeta. destruct (contains_unknowns v); [pleaf|].
@@ -305,8 +305,8 @@ Proof.
     intros E p g. rewrite eval_access_S. destruct p as [|a0 rest]; [pleaf|]. cbv zeta.
     assert (preserves (R E g) (walk W f E (EObj (ec_values E)) false (ec_base E) (ec_name E, []) (a0 :: rest))) as Hw
       by (apply IHw; apply (proj1 IdOK_closed)).
-    assert (forall c0, preserves (R E g) (let '(c, n) := value_access big_fuel c0 rest in add_err n ;;; ret c)) as Hva
-      by (intros c0; destruct (value_access big_fuel c0 rest) as [c n]; oof_case).
+    assert (forall c0, preserves (R E g) (let '(c, n) := value_access (va_need c0 rest) c0 rest in add_err n ;;; ret c)) as Hva
+      by (intros c0; destruct (value_access (va_need c0 rest) c0 rest) as [c n]; oof_case).
     destruct (object_key a0) as [k|]; [|exact Hw].
     repeat (lazymatch goal with
             | |- preserves _ (match ?x with _ => _ end) => destruct x
@@ -314,8 +314,8 @@ Proof.
   - (* walk *)
     intros E rx rsec rbase rid accs g Hid. rewrite walk_S.
     destruct accs as [|a rest]; [apply IHe', Hid|].
-    assert (forall v, preserves (R E g) (let '(c, n) := value_access big_fuel v (a :: rest) in add_err n ;;; ret c)) as Hva
-      by (intros c0; destruct (value_access big_fuel c0 (a :: rest)) as [c n]; oof_case).
+    assert (forall v, preserves (R E g) (let '(c, n) := value_access (va_need v (a :: rest)) v (a :: rest) in add_err n ;;; ret c)) as Hva
+      by (intros c0; destruct (value_access (va_need c0 (a :: rest)) c0 (a :: rest)) as [c n]; oof_case).
     destruct rx; try (apply pres_bind; [apply IHe', Hid|apply Hva]); try oof_case.
     + (* EArr *) destruct (array_index a _); [apply IHw, IdOK_ext, Hid|oof_case].
     + (* EObj *) destruct (object_key a) as [k|]; [|oof_case].
